@@ -367,10 +367,10 @@ def prove_sorted(I, term):
     if term.etype is None:
         return False
     i1, i2 = ctx.fresh_int("s1"), ctx.fresh_int("s2")
-    m1 = term.new_member(TRUE, i1)
-    m2 = term.new_member(TRUE, i2)
+    m1 = term.any_member(i1)
+    m2 = term.any_member(i2)
     le = bm.elem_lex_le(I)(m1.elem, m2.elem)
-    return ctx.entails(z3.Implies(i1 < i2, le))
+    return ctx.entails(z3.Implies(z3.And(m1.cond, m2.cond, i1 < i2), le))
 
 
 def sort_in_place(I, box):
@@ -407,12 +407,12 @@ def add_adjacent_fact(I, term, cond, fn, tag):
     ctx = I.ctx
     term.adj_facts.append((cond, fn, tag))
     i, j, k = ctx.fresh_int("c1"), ctx.fresh_int("c2"), ctx.fresh_int("c3")
-    a = term.new_member(TRUE, i)
-    b = term.new_member(TRUE, j)
-    c = term.new_member(TRUE, k)
+    a = term.any_member(i)
+    b = term.any_member(j)
+    c = term.any_member(k)
     I.ctx.pure_depth += 1
     try:
-        goal = z3.Implies(z3.And(cond, i < j, j < k, to_z3(fn(a.elem, b.elem)), to_z3(fn(b.elem, c.elem))),
+        goal = z3.Implies(z3.And(cond, a.cond, b.cond, c.cond, i < j, j < k, to_z3(fn(a.elem, b.elem)), to_z3(fn(b.elem, c.elem))),
                           to_z3(fn(a.elem, c.elem)))
     finally:
         I.ctx.pure_depth -= 1
@@ -589,7 +589,7 @@ def same_term(I, t1, t2):
             for x, y in zip(a.items, b.items):
                 ok, why = I.same_value(x, y)
                 if not ok:
-                    return False, why
+                    return ok, why
         elif a.kind == "fm":
             ok, why = same_fm(I, a.fm, b.fm)
             if not ok:
@@ -626,11 +626,12 @@ def same_fm(I, f1, f2):
         return same_by_extensionality(I, f1, f2)
     ctx = I.ctx
     j = ctx.fresh_int("jj")
-    f1.src.new_member(TRUE, j)
+    gm = f1.src.any_member(j)
+    inrange = gm.cond
     if f2.src is not f1.src:
-        f2.src.new_member(TRUE, j)
+        f2.src.any_member(j)
         if f1.src.etype is not None:
-            ctx.assume(I.elem_eq(f1.src.at(j), f2.src.at(j)))
+            ctx.assume(z3.Implies(inrange, I.elem_eq(f1.src.at(j), f2.src.at(j))))
     c1, c2 = f1.count(j), f2.count(j)
     goals = [c1 == c2]
     n = max(f1.maxouts, f2.maxouts)
@@ -647,7 +648,7 @@ def same_fm(I, f1, f2):
         if o1 is None or o2 is None:
             continue
         goals.append(z3.Implies(c1 > k, I.elem_eq(o1, o2)))
-    goal = z3.And(goals)
+    goal = z3.Implies(inrange, z3.And(goals))
     if ctx.entails(goal):
         return True, None
     return False, ("per-element bodies differ", goal)
@@ -656,12 +657,14 @@ def same_fm(I, f1, f2):
 def same_by_extensionality(I, t1, t2):
     """equal length and equal elements at an arbitrary index"""
     ctx = I.ctx
+    if ctx.entails(z3.And(t1.length() == 0, t2.length() == 0)):
+        return True, None
     if t1.etype is None or t2.etype is None:
-        return False, "cannot compare lists of non-element values"
+        return None, "cannot compare lists of non-element values"
     i = ctx.fresh_int("ext")
-    m1 = t1.new_member(TRUE, i)
-    m2 = t2.new_member(z3.And(i >= 0, i < t2.length()), i)
-    goal = z3.And(t1.length() == t2.length(), I.elem_eq(m1.elem, m2.elem))
+    m1 = t1.any_member(i)
+    m2 = t2.any_member(i)
+    goal = z3.And(t1.length() == t2.length(), z3.Implies(m1.cond, I.elem_eq(m1.elem, m2.elem)))
     if ctx.entails(goal):
         return True, None
     return False, ("lists differ (extensionality)", goal)
